@@ -85,8 +85,8 @@ func ruleA1(ruleID string, only func(lm *LockModel, cls int) bool) func(*Ctx) {
 	}
 }
 
-func onlyDB(lm *LockModel, cls int) bool  { return cls == lm.DB }
-func notDB(lm *LockModel, cls int) bool   { return cls != lm.DB }
+func onlyDB(lm *LockModel, cls int) bool   { return cls == lm.DB }
+func notDB(lm *LockModel, cls int) bool    { return cls != lm.DB }
 func anyClass(lm *LockModel, cls int) bool { return true }
 
 // ---------------------------------------------------------------- dump (development aid)
